@@ -33,6 +33,12 @@ fn parse_header(header: &str) -> Result<Header, ParseError> {
         return Err(ParseError::HeaderTooLong);
     }
 
+    // The header is cut two bytes after the first `\r`: once a byte follows the `\r` the line cannot grow.
+    let closed = header
+        .len()
+        .checked_sub(PROTOCOL_SUFFIX.len())
+        .map_or(false, |i| header.as_bytes()[i] == b'\r');
+
     let mut iterator = header
         .splitn(PARTS, |c| c == SEPARATOR || c == CARRIAGE_RETURN)
         .peekable();
@@ -69,9 +75,17 @@ fn parse_header(header: &str) -> Result<Header, ParseError> {
             })
         }
         Some(UNKNOWN) => {
-            while iterator.next_if(|&s| s != NEWLINE).is_some() {}
-
-            Addresses::Unknown
+            // Anything between the protocol and the end of the line is ignored.
+            return if header.ends_with(PROTOCOL_SUFFIX) {
+                Ok(Header {
+                    header: Cow::Borrowed(header),
+                    addresses: Addresses::Unknown,
+                })
+            } else if closed {
+                Err(ParseError::InvalidSuffix)
+            } else {
+                Err(ParseError::MissingNewLine)
+            };
         }
         Some(protocol) if protocol.is_empty() && iterator.peek().is_none() => {
             return Err(ParseError::MissingProtocol)
@@ -87,12 +101,14 @@ fn parse_header(header: &str) -> Result<Header, ParseError> {
         None => return Err(ParseError::MissingProtocol),
     };
 
-    let newline = iterator
-        .next()
-        .filter(|s| !s.is_empty())
-        .ok_or(ParseError::MissingNewLine)?;
+    let newline = iterator.next().filter(|s| !s.is_empty());
 
-    if newline != NEWLINE {
+    if newline.is_none() && !closed {
+        return Err(ParseError::MissingNewLine);
+    }
+
+    // The line must end with the first `\r` immediately followed by `\n`, not merely contain a `\n` field.
+    if newline != Some(NEWLINE) || !header.ends_with(PROTOCOL_SUFFIX) {
         return Err(ParseError::InvalidSuffix);
     }
 
